@@ -8,6 +8,7 @@ from ..oracle import WalkOracle, Or, And
 from ..harness import Query
 
 ID = 'C15'
+DEFAULT_FEATURES = True   # fast-check data is part of the graph state
 FNS = ['ModuleGraph::walk', 'ModuleEntryIterator::new', 'ModuleEntryIterator::next', 'ModuleEntryIterator::analyze_module_deps',
        'ModuleEntryIterator::is_checkable', 'ModuleEntryIterator::skip_previous_dependencies']
 
